@@ -164,7 +164,7 @@ fn gen_case(seed: u64, index: u64, tier: Tier) -> Case {
 			Stream::Sched {
 				adds: rng.urange(1, 5),
 				device,
-				switch_prob: *rng.pick(&[0.1, 0.3, 0.6, 0.9]),
+				switch_prob: *rng.pick(&[0.03, 0.1, 0.3, 0.6, 0.9]),
 			}
 		}
 		_ => {
